@@ -112,11 +112,20 @@ def check_sensitization(acc, desc, n, eps_arg, repeat=False):
     acc.transitions += 1
     try:
         ep_obj = list(eps_arg) if eps_arg else None
-        if isinstance(repeat, list):
+        if repeat == "stale":
+            c2, finish = space.build_pre(desc)
+            if c2 is not None:
+                c = c2
+                try:
+                    cg.tx.sensitization_transform(c, n, endpoints=ep_obj)
+                except Exception:  # noqa: BLE001
+                    pass
+                finish()
+        elif isinstance(repeat, list):
             # an earlier call restricted to other endpoints, on the same circuit object, must not matter
             cg.tx.sensitization_transform(c, n, endpoints=list(repeat))
         elif repeat:
-            cg.tx.sensitization_transform(c, n, endpoints=ep_obj)   # same circuit and same endpoints object again
+            space.scramble(cg.tx.sensitization_transform(c, n, endpoints=ep_obj))   # same circuit and same endpoints object again
             if eps_arg and ep_obj != list(eps_arg):
                 acc.violation("sensitization", "endpoints-argument-modified", case, f"{list(eps_arg)} -> {ep_obj}")
                 return None
@@ -175,13 +184,22 @@ def check_sens_transform(acc, desc, n, repeat=False):
         return None
     acc.transitions += 1
     try:
-        if repeat:
+        if repeat is True:
             # a caller is entitled to edit a block the library handed out; later transforms must not see the edit
             pc = cg.logic.popcount(len(sp))
             for g in sorted(pc.nodes()):
                 if pc.type(g) in ("and", "or", "xor"):
                     pc.set_type(g, {"and": "or", "or": "xor", "xor": "and"}[pc.type(g)])
-            cg.tx.sensitivity_transform(c, n)
+            space.scramble(cg.tx.sensitivity_transform(c, n))
+        if repeat == "stale":
+            c2, finish = space.build_pre(desc)
+            if c2 is not None:
+                c = c2
+                try:
+                    cg.tx.sensitivity_transform(c, n)
+                except Exception:  # noqa: BLE001
+                    pass
+                finish()
         s = cg.tx.sensitivity_transform(c, n)
     except Exception as e:  # noqa: BLE001
         acc.violation("sens_transform", f"raises:{common.exc_name(e)}", case, repr(e))
@@ -224,7 +242,7 @@ def check_sens_transform(acc, desc, n, repeat=False):
 ANSWERS = [("first",), ("index", 1), ("last",)]
 
 
-def check_props(acc, desc, n, do_sensitize=True):
+def check_props(acc, desc, n, do_sensitize=True, variant=None):
     """sensitivity / influence / avg_sensitivity / sensitize for node n."""
     import circuitgraph as cg
 
@@ -234,13 +252,14 @@ def check_props(acc, desc, n, do_sensitize=True):
         return None
     k = len(sp)
     nt = min(counts) != max(counts)
+    hist = lambda fn: space.call_with_history(desc, fn, variant)[1]
     for pol in ANSWERS:
-        case = {"kind": "props", "desc": desc, "node": n, "policy": list(pol)}
+        case = {"kind": "props", "desc": desc, "node": n, "policy": list(pol), "variant": variant}
         # sensitivity
         satref.set_policy(pol)
         acc.transitions += 1
         try:
-            got = cg.props.sensitivity(space.build(desc), n)
+            got = hist(lambda x: cg.props.sensitivity(x, n))
             want = 1 if n in sp else max(counts)
             if got != want:
                 acc.violation("props", "sensitivity-wrong", case, f"sensitivity({n}) = {got}, expected {want}")
@@ -251,11 +270,11 @@ def check_props(acc, desc, n, do_sensitize=True):
             want_inf = {s: refsim.popcount(dif[s]) / (1 << k) for s in sp}
             try:
                 satref.set_policy(pol)
-                inf = cg.props.influence(space.build(desc), n, approx=False)
+                inf = hist(lambda x: cg.props.influence(x, n, approx=False))
                 if set(inf) != set(sp) or any(inf[s] != want_inf[s] for s in sp):
                     acc.violation("props", "influence-wrong", case, f"influence({n}) = {inf}, expected {want_inf}")
                 satref.set_policy(pol)
-                av = cg.props.avg_sensitivity(space.build(desc), n, approx=False)
+                av = hist(lambda x: cg.props.avg_sensitivity(x, n, approx=False))
                 if abs(av - sum(want_inf.values())) > 1e-12:
                     acc.violation("props", "avg_sensitivity-wrong", case, f"avg_sensitivity({n}) = {av}, expected {sum(want_inf.values())}")
             except Exception as e:  # noqa: BLE001
@@ -268,7 +287,7 @@ def check_props(acc, desc, n, do_sensitize=True):
                 satref.set_policy(pol)
                 acc.transitions += 1
                 try:
-                    r = cg.props.sensitize(space.build(desc), n)
+                    r = hist(lambda x: cg.props.sensitize(x, n))
                     if r is None:
                         if want:
                             acc.violation("props", "sensitize-none-but-sensitisable", case, "")
@@ -316,6 +335,8 @@ def run_transforms(job, acc):
             if down and (_idx // job["of"]) % 4 == 0:
                 check_sensitization(acc, desc, n, down[:1], repeat=True)
                 check_sensitization(acc, desc, n, None, repeat=True)
+                check_sensitization(acc, desc, n, None, repeat="stale")
+                check_sensitization(acc, desc, n, down[:1], repeat="stale")
                 for e in down:
                     check_sensitization(acc, desc, n, None, repeat=[e])   # restricted call first, then the default
             # endpoint sets that contain outputs not downstream of n are legal too as long as n is in the fan-in
@@ -325,6 +346,7 @@ def run_transforms(job, acc):
             nt |= bool(check_sens_transform(acc, desc, n))
             if (_idx // job["of"]) % 4 == 0:
                 check_sens_transform(acc, desc, n, repeat=True)
+                check_sens_transform(acc, desc, n, repeat="stale")
             if nt:
                 acc.nontrivial += 1
         acc.sample({"desc": desc})
@@ -348,6 +370,10 @@ def run_props(job, acc):
             acc.states += 1
             if check_props(acc, desc, n):
                 acc.nontrivial += 1
+            if (_idx // job["of"]) % 4 == 0:
+                for v in ("stale", "alias"):
+                    acc.states += 1
+                    check_props(acc, desc, n, variant=v)
         acc.sample({"desc": desc})
         if acc.out_of_time():
             break
@@ -414,5 +440,5 @@ def replay(case, job):
     elif k == "sens_transform":
         check_sens_transform(acc, case["desc"], case["node"], repeat=case.get("repeat", False))
     else:
-        check_props(acc, case["desc"], case["node"])
+        check_props(acc, case["desc"], case["node"], variant=case.get("variant"))
     return acc.result()
